@@ -436,7 +436,8 @@ class QuotientFilter:
             idx = next_idx
             next_idx = (idx + 1) & self.__mod_size
 
-        while not self._is_cluster_start(next_idx) and not self._is_empty_element(next_idx):
+        # (next_idx == min_idx: the cluster wraps around the whole, completely full, table and we are back at its start)
+        while next_idx != min_idx and not self._is_cluster_start(next_idx) and not self._is_empty_element(next_idx):
             self._filter[idx] = self._filter[next_idx]
             self._is_continuation[idx] = self._is_continuation[next_idx]
             self._is_shifted[idx] = self._is_shifted[next_idx]
@@ -455,7 +456,9 @@ class QuotientFilter:
         # now figure out if things are in the correct place....
         cur_quot = -1
         queue: List[int] = []
-        while min_idx != next_idx:
+        full_circle = min_idx == next_idx  # the cluster wrapped around the whole table: walk all of it once
+        while full_circle or min_idx != next_idx:
+            full_circle = False
             if self._is_occupied[min_idx] == 1:
                 queue.append(min_idx)
             if self._is_run_start(min_idx) == 1:
